@@ -329,3 +329,148 @@ Proof.
     + intros k Hk. rewrite Psw2, LP. now apply saved_psw_keeps_bit.
     + intros a Ha Da Db. unfold ramb. rewrite B2. fold (ramb m1 a). now apply Fr.
 Qed.
+
+(* ---- the same with R and I together: context_switch_2 moves PCBP 12 bytes on, so the (empty) block-move list that
+   context_switch_3 consults is the one 64 bytes behind the moved pointer ---- *)
+Lemma on_interrupt_effect_gen_RI v m N P S H :
+  bus_wf (mbus m) -> 0 <= v -> in_rom_w (140 + 4 * v) ->
+  romw m (140 + 4 * v) = N -> R m R_PCBP = P -> R m R_ISP = S -> ldw m N = H ->
+  pcb_in_ram N -> in_ram_w (N + 76) -> ldw m (N + 76) = 0 ->
+  pcb_in_ram P -> in_ram_w S -> S + 4 < 4294967296 ->
+  (P + 64 <= N \/ N + 80 <= P) -> (S + 4 <= P \/ P + 64 <= S) -> (S + 4 <= N \/ N + 80 <= S) ->
+  Z.testbit H 8 = true -> Z.testbit H 7 = true ->
+  exists m1, on_interrupt v m = Ok tt m1
+    /\ bus_wf (mbus m1)
+    /\ R m1 R_ISP = S + 4 /\ R m1 R_PCBP = N + 12 /\ PSW m1 = handler_psw_I H
+    /\ R m1 R_PC = ldw m (N + 4) /\ R m1 R_SP = ldw m (N + 8)
+    /\ ldw m1 S = w32 P /\ ldw m1 P = w32 (saved_psw (PSW m) H)
+    /\ ldw m1 (P + 4) = w32 (R m R_PC) /\ ldw m1 (P + 8) = w32 (R m R_SP)
+    /\ ldw m1 (P + 20) = w32 (R m R_AP) /\ ldw m1 (P + 24) = w32 (R m R_FP)
+    /\ (forall k, 0 <= k <= 8 -> ldw m1 (P + 28 + 4 * k) = w32 (R m k))
+    /\ (forall a, RAMB <= a -> (a < S \/ S + 4 <= a) -> (a < P \/ P + 64 <= a) -> ramb m1 a = ramb m a).
+Proof.
+  intros W Hv Hrom EN EP ES EH HN HN64 LN64 HP HS Hlt D1 D2 D3 HR HI.
+  pose proof HN as [n1 [n2 n3]]. pose proof HP as [p1 [p2 p3]]. pose proof HS as [s1 [s2 s3]].
+  assert (HN0 : in_ram_w N) by (replace N with (N + 0) by lia; apply pcb_word; [exact HN | lia | reflexivity]).
+  assert (HN4 : in_ram_w (N + 4)) by (apply pcb_word; [exact HN | lia | reflexivity]).
+  assert (HN8 : in_ram_w (N + 8)) by (apply pcb_word; [exact HN | lia | reflexivity]).
+  assert (HS' : in_ram_w (R m R_ISP)) by (rewrite ES; exact HS).
+  assert (Hlt' : R m R_ISP + 4 < 4294967296) by (rewrite ES; exact Hlt).
+  assert (E0 : on_interrupt v m =
+               bind (context_switch_1 N (entry0 m)) (fun _ m => bind (context_switch_2 N m) (fun _ m =>
+                 context_switch_3 (psw_enter_2 m)))).
+  { unfold on_interrupt. rewrite rd_word_rom by assumption. cbn [bind]. rewrite EN.
+    pose proof (entry0_eq m W HS' Hlt') as K.
+    destruct (irq_push (R m R_PCBP) m) as [u mx|e mx| |]; cbn [bind] in *; try discriminate.
+    assert (K' : psw_enter_1 mx = entry0 m) by congruence. cbv zeta. rewrite K'. reflexivity. }
+  rewrite E0. clear E0.
+  pose proof (entry0_wf m W) as W0.
+  assert (E13 : R (entry0 m) R_PCBP = P) by (rewrite entry0_R by (unfold R_PCBP; lia); exact EP).
+  assert (LN : forall a, RAMB <= a -> (a + 4 <= S \/ S + 4 <= a) -> ldw (entry0 m) a = ldw m a).
+  { intros a Ha Da. apply entry0_ldw; rewrite ?ES; unfold RAMB in *; lia. }
+  assert (LN0 : ldw (entry0 m) N = H) by (rewrite LN by (unfold RAMB in *; lia); exact EH).
+  assert (HR0 : Z.testbit (ldw (entry0 m) N) 8 = true) by (rewrite LN0; exact HR).
+  assert (D1' : N + 4 <= P \/ P + 64 <= N) by lia.
+  destruct (cs1_effect_R N P (entry0 m) W0 E13 HP HN0 D1' HR0)
+    as [m5 (E5 & W5 & Psw5 & Fp5 & Rg5 & L0 & L4 & L8 & L20 & L24 & Lk & Fr5)].
+  rewrite E5. cbn [bind].
+  assert (L5 : forall a, RAMB <= a -> (a + 4 <= P \/ P + 64 <= a) -> ldw m5 a = ldw (entry0 m) a).
+  { intros a Ha Da. apply ldw_frame. intros k Hk. apply Fr5; lia. }
+  assert (L5N0 : ldw m5 N = H) by (rewrite L5 by (unfold RAMB in *; lia); exact LN0).
+  rewrite cs2_effect_I; [| exact W5 | exact HN0 | exact HN4 | exact HN8 | rewrite L5N0; exact HI].
+  cbn [bind]. rewrite L5N0.
+  unfold psw_enter_2, setPSW, PSW. rconst. rewrite !R_setR_other by lia. rewrite R_setR_same.
+  fold (handler_psw_I H).
+  assert (BR : bset (handler_psw_I H) F_R = true).
+  { unfold handler_psw_I. rewrite bset_R, !Z.lor_spec, !testbit_clr32, HR. psw_consts. eval_closed_bits. reflexivity. }
+  rewrite (cs3_effect_R_empty _ (N + 12));
+    [| rewrite ?mbus_setR; exact W5
+     | rconst; rewrite !R_setR_other by lia; apply R_setR_same
+     | replace (N + 12 + 64) with (N + 76) by lia; exact HN64
+     | replace (N + 12 + 64) with (N + 76) by lia; rewrite !ldw_setR; rewrite L5 by (unfold RAMB in *; lia); rewrite LN by (unfold RAMB in *; lia); exact LN64
+     | unfold PSW; rconst; rewrite ?R_setR_other by lia; rewrite R_setR_same; exact BR].
+  unfold after_cs3.
+  eexists. split; [reflexivity|].
+  split; [rewrite ?mbus_setR; exact W5|].
+  split.
+  { unfold R_ISP. rewrite !R_setR_other by lia. rewrite Rg5 by lia. change 14 with R_ISP. rewrite entry0_isp. rconst. lia. }
+  split; [unfold R_PCBP; rewrite !R_setR_other by lia; apply R_setR_same|].
+  split; [unfold PSW, R_PSW; rewrite !R_setR_other by lia; apply R_setR_same|].
+  split; [unfold R_PC; rewrite !R_setR_other by lia; rewrite R_setR_same; rewrite L5 by (unfold RAMB in *; lia); apply LN; unfold RAMB in *; lia|].
+  split; [unfold R_SP; rewrite !R_setR_other by lia; rewrite R_setR_same; rewrite L5 by (unfold RAMB in *; lia); apply LN; unfold RAMB in *; lia|].
+  rewrite !ldw_setR.
+  split.
+  { rewrite L5 by (unfold RAMB in *; lia). rewrite <- ES, <- EP. apply entry0_ldw_isp. rconst. rewrite ES. exact s1. }
+  split.
+  { rewrite L0, Psw5, LN0, entry0_psw. reflexivity. }
+  split; [rewrite L4; rewrite entry0_R by (unfold R_PC; lia); reflexivity|].
+  split; [rewrite L8; rewrite entry0_R by (unfold R_SP; lia); reflexivity|].
+  split; [rewrite L20; rewrite entry0_R by (unfold R_AP; lia); reflexivity|].
+  split; [rewrite L24; rewrite entry0_R by (unfold R_FP; lia); reflexivity|].
+  split; [intros k Hk; rewrite !ldw_setR; rewrite Lk by lia; rewrite entry0_R by lia; reflexivity|].
+  intros a Ha D4 D5. rewrite !ramb_setR. rewrite Fr5 by (try assumption; unfold RAMB in *; lia).
+  apply entry0_ramb; rconst; rewrite ?ES; assumption.
+Qed.
+
+Theorem interrupt_retps_transparent_RI ir v m :
+  iopcode ir = 12488 ->
+  bus_wf (mbus m) -> 0 <= v -> in_rom_w (140 + 4 * v) ->
+  let N := romw m (140 + 4 * v) in
+  let P := R m R_PCBP in
+  let S := R m R_ISP in
+  pcb_in_ram N -> in_ram_w (N + 76) -> ldw m (N + 76) = 0 ->
+  pcb_in_ram P -> in_ram_w (P + 64) -> ldw m (P + 64) = 0 ->
+  in_ram_w S -> S + 4 < 4294967296 ->
+  (P + 68 <= N \/ N + 80 <= P) -> (S + 4 <= P \/ P + 68 <= S) -> (S + 4 <= N \/ N + 80 <= S) ->
+  let H := ldw m N in
+  0 <= H -> Z.testbit H 8 = true -> Z.testbit H 7 = true -> Z.testbit H 11 = false -> Z.testbit H 12 = false ->
+  Z.testbit (PSW m) 7 = false ->
+  (forall i, 0 <= i <= 15 -> 0 <= R m i < 4294967296) ->
+  exists m1 m2,
+    on_interrupt v m = Ok tt m1 /\ R m1 R_PCBP = N + 12 /\ exec ir m1 = Ok 0 m2
+    /\ R m2 R_PC = R m R_PC /\ R m2 R_SP = R m R_SP /\ R m2 R_PCBP = P /\ R m2 R_ISP = S
+    /\ (forall i, 0 <= i <= 10 -> R m2 i = R m i)
+    /\ (forall k, In k [21; 20; 19; 18; 16; 15; 14; 13; 12; 11; 10; 9; 7] -> Z.testbit (PSW m2) k = Z.testbit (PSW m) k)
+    /\ (forall a, RAMB <= a -> (a < S \/ S + 4 <= a) -> (a < P \/ P + 64 <= a) -> ramb m2 a = ramb m a).
+Proof.
+  intros Ho W Hv Hrom N P S HN HN64 LN64 HP HP64 LP64 HS Hlt D1 D2 D3 H H0 HR HI H11 H12 PI Rg.
+  assert (D1' : P + 64 <= N \/ N + 80 <= P) by lia.
+  assert (D2' : S + 4 <= P \/ P + 64 <= S) by lia.
+  destruct (on_interrupt_effect_gen_RI v m N P S H W Hv Hrom eq_refl eq_refl eq_refl eq_refl HN HN64 LN64 HP HS Hlt D1' D2' D3 HR HI)
+    as [m1 (E1 & W1 & Isp1 & Pcbp1 & Psw1 & Pc1 & Sp1 & LS & LP & LP4 & LP8 & LP20 & LP24 & LPk & Fr)].
+  pose proof HP as [p1 [p2 p3]]. pose proof HS as [s1 [s2 s3]]. pose proof HP64 as [q1 [q2 q3]].
+  assert (Pr : 0 <= P < 4294967296) by (unfold RAMB, RAME in *; lia).
+  assert (EP : ldw m1 (R m1 R_ISP - 4) = P).
+  { rewrite Isp1. replace (S + 4 - 4) with S by lia. rewrite LS. now apply w32_id. }
+  assert (L64 : ldw m1 (P + 64) = 0).
+  { rewrite <- LP64. apply ldw_frame. intros k Hk. apply Fr; unfold RAMB in *; lia. }
+  destruct (retps_effect_R ir m1 Ho) as [m2 (E2 & B2 & Isp2 & Pcbp2 & Psw2 & Pc2 & Sp2 & Fp2 & Ap2 & Rk2)].
+  - eapply handler_psw_I_kernel; eauto.
+  - exact W1.
+  - rewrite Isp1. unfold RAMB in *. lia.
+  - rewrite Isp1. replace (S + 4 - 4) with S by lia. exact HS.
+  - rewrite EP. exact HP.
+  - rewrite EP. exact HP64.
+  - rewrite EP. exact L64.
+  - rewrite EP, LP. unfold w32. rewrite Z.mod_pow2_bits_low with (n := 32) by lia.
+    unfold saved_psw. rewrite Z.lor_spec, testbit_clr32, Z.land_spec, HR. psw_consts. eval_closed_bits.
+    now rewrite orb_true_r.
+  - rewrite EP, LP. unfold w32. rewrite Z.mod_pow2_bits_low with (n := 32) by lia.
+    unfold saved_psw, psw1. repeat (rewrite Z.lor_spec || rewrite Z.land_spec || rewrite testbit_clr32).
+    rewrite PI. psw_consts. eval_closed_bits. rewrite ?andb_false_r, ?andb_true_r, ?orb_false_r. reflexivity.
+  - rewrite EP in *. exists m1, m2.
+    split; [exact E1|]. split; [exact Pcbp1|]. split; [exact E2|].
+    split; [rewrite Pc2, LP4; apply w32_id; apply Rg; unfold R_PC; lia|].
+    split; [rewrite Sp2, LP8; apply w32_id; apply Rg; unfold R_SP; lia|].
+    split; [exact Pcbp2|].
+    split; [rewrite Isp2, Isp1; lia|].
+    split.
+    { intros i Hi.
+      assert (Ei : 0 <= i <= 8 \/ i = 9 \/ i = 10) by lia. destruct Ei as [Ei|[Ei|Ei]].
+      - rewrite (Rk2 i Ei), (LPk i Ei). apply w32_id. apply Rg. lia.
+      - subst i. change 9 with R_FP. rewrite Fp2, LP24. apply w32_id. apply Rg. unfold R_FP. lia.
+      - subst i. change 10 with R_AP. rewrite Ap2, LP20. apply w32_id. apply Rg. unfold R_AP. lia. }
+    split.
+    + intros k Hk. rewrite Psw2, LP. now apply saved_psw_keeps_bit.
+    + intros a Ha Da Db. unfold ramb. rewrite B2. fold (ramb m1 a). now apply Fr.
+Qed.
